@@ -1,7 +1,8 @@
 (* C10 Filters never give a false negative, in memory, on file, merged or off-loaded.
    This file contains statements only; every proof is `exact <lemma>`. *)
 Require Import Pearl.Base.Prelude Pearl.Base.LE Pearl.Generated.Pure Pearl.Filter.Bloom Pearl.Filter.BloomProofs
-               Pearl.Filter.Hier Pearl.Filter.HierProofs Pearl.Filter.Combined Pearl.Filter.CombinedProofs Pearl.Base.AHash.
+               Pearl.Filter.Hier Pearl.Filter.HierProofs Pearl.Filter.Combined Pearl.Filter.CombinedProofs Pearl.Base.AHash
+               Pearl.Storage.Model Pearl.Storage.Spec Pearl.Storage.Filtered Pearl.Storage.FilteredProofs.
 
 Section C10.
 Context {key : Type}.
@@ -90,6 +91,72 @@ Theorem C10_blob_groups_no_false_negative :
     In c (ch_iter K (ch_run K group ops) k) /\ ch_check K (ch_run K group ops) k = true.
 Proof. exact ch_no_false_negative. Qed.
 
+(* ---- the filters INSIDE the storage model (Storage/Filtered.v): the hierarchy is maintained alongside the storage
+   (a blob closed = a child pushed with the filter of its keys, restore = pop, restart = rebuilt from the blobs,
+   offload_buffer(needed, level) at any moment), and the read path that opens only the blobs the hierarchy yields for
+   the key -- each asked through its own filter, or through the possibly off-loaded filter kept in its slot -- returns
+   EXACTLY what the filterless model returns, after EVERY history; for a read without metadata that is the
+   specification's answer. "Storage::read after offload" and check_filters can never hide a stored record. ---- *)
+Theorem C10_filtered_read_is_read :
+  forall (K : N) (bloom0 : option bloom) (cfg : config) (group : nat) (evs : list fev) (k : N) (meta : option N),
+    (0 < group)%nat -> bloom0_wf bloom0 ->
+    let s := fst (freach K bloom0 cfg group evs) in
+    let h := snd (freach K bloom0 cfg group evs) in
+    get_latest_entry_filtered K bloom0 h s k meta = get_latest_entry s k meta.
+Proof. exact filtered_read_is_read. Qed.
+
+Theorem C10_filtered_read_through_slot_filters :
+  forall (K : N) (bloom0 : option bloom) (cfg : config) (group : nat) (evs : list fev) (k : N) (meta : option N),
+    (0 < group)%nat -> bloom0_wf bloom0 ->
+    let s := fst (freach K bloom0 cfg group evs) in
+    let h := snd (freach K bloom0 cfg group evs) in
+    get_latest_entry_filtered_slot K bloom0 h s k meta = get_latest_entry s k meta.
+Proof. exact filtered_slot_read_is_read. Qed.
+
+Theorem C10_filtered_read_is_spec :
+  forall (K : N) (bloom0 : option bloom) (cfg : config) (group : nat) (evs : list fev) (k : N),
+    (0 < group)%nat -> bloom0_wf bloom0 ->
+    let s := fst (freach K bloom0 cfg group evs) in
+    let h := snd (freach K bloom0 cfg group evs) in
+    get_latest_entry_filtered K bloom0 h s k None = spec_read (abs s) k.
+Proof. exact filtered_read_is_spec. Qed.
+
+(* the slots of the hierarchy are the slots of the closed-blob list, after every history *)
+Theorem C10_hierarchy_slots_are_the_closed_blobs :
+  forall (K : N) (bloom0 : option bloom) (cfg : config) (group : nat) (evs : list fev),
+    bloom0_wf bloom0 ->
+    let s := fst (freach K bloom0 cfg group evs) in
+    let h := snd (freach K bloom0 cfg group evs) in
+    length (h_children combined h) = length (s_closed s) /\
+    (forall c : nat, present combined h c = match nth_error (s_closed s) c with Some (Some _) => true | _ => false end).
+Proof. exact slots_correspond. Qed.
+
+(* Storage::check_filters and <Storage as BloomProvider>::check_filter (Storage/Filtered.v cf_answer / cfs_answer: an
+   in-memory index answers exactly, an on-disk one through the blob's filter, the hierarchy selects the children):
+   a key held by any blob of the storage is never answered "definitely absent" -- in every state, resp. after every
+   history with the hierarchy maintained alongside *)
+Theorem C10_check_filters_no_false_negative :
+  forall (K : N) (bloom0 : option bloom) (s : storage) (b : blob) (k : N),
+    bloom0_wf bloom0 -> s_active s = Some b \/ In b (closed_blobs s) -> In k (blob_keys b) ->
+    cf_answer K bloom0 s k = true.
+Proof. exact cf_answer_no_false_negative. Qed.
+
+Theorem C10_check_filter_no_false_negative :
+  forall (K : N) (bloom0 : option bloom) (cfg : config) (group : nat) (evs : list fev) (b : blob) (k : N),
+    (0 < group)%nat -> bloom0_wf bloom0 ->
+    let s := fst (freach K bloom0 cfg group evs) in
+    let h := snd (freach K bloom0 cfg group evs) in
+    s_active s = Some b \/ In b (closed_blobs s) -> In k (blob_keys b) ->
+    cfs_answer K bloom0 h s k = true.
+Proof. exact cfs_answer_no_false_negative. Qed.
+
+(* the premise on the configured bloom filter is met by "no bloom" and by every fresh bloom of fewer than 2^64 bits *)
+Theorem C10_bloom0_wf_cases :
+  forall bloom0 : option bloom,
+    bloom0 = None \/ (exists (bits hashers : N) (c : bytes), bits < 2 ^ 64 /\ bloom0 = Some (bloom_new bits hashers c)) ->
+    bloom0_wf bloom0.
+Proof. exact bloom0_wf_cases. Qed.
+
 (* non-vacuity of the hierarchy theorems: a concrete history (group 2, 100-bit blooms, a removal, a bounded off-load) *)
 Example C10_hierarchy_nonvacuous :
   let f0 := cf_new (Some (bloom_new 100 2 (repeat 0 40))) in
@@ -111,3 +178,10 @@ Print Assumptions C10_hierarchy_leaves_exact.
 Print Assumptions C10_combined_no_false_negative.
 Print Assumptions C10_combined_merge_keeps_keys.
 Print Assumptions C10_blob_groups_no_false_negative.
+Print Assumptions C10_filtered_read_is_read.
+Print Assumptions C10_filtered_read_through_slot_filters.
+Print Assumptions C10_filtered_read_is_spec.
+Print Assumptions C10_hierarchy_slots_are_the_closed_blobs.
+Print Assumptions C10_bloom0_wf_cases.
+Print Assumptions C10_check_filters_no_false_negative.
+Print Assumptions C10_check_filter_no_false_negative.
